@@ -2,8 +2,10 @@
 //! Monitor: invariant on `varpulis_parser::parse` results over mutated real sources.
 //! The parsing runs in SUBPROCESS shards (this binary re-executes itself with `--shard FILE`):
 //! a stack overflow or any other abort kills only the shard, the parent learns the offending
-//! input from the shard's progress lines and restarts the shard after it. A per-input time cap
-//! is enforced by the shard; an input over the cap is re-measured alone before it counts.
+//! input from the shard's progress lines and restarts the shard after it. A per-input cap of
+//! 10 s of CPU time (from /proc/self/stat, so that machine load cannot fake a slow parse; wall
+//! time is only a 12x backstop) is enforced by the shard; an input over the cap is re-measured
+//! alone before it counts.
 //! Oracle (parent side, needs only the ORIGINAL input text): every position an error carries
 //! is <= len(input), every line <= number of lines, every column <= length of that line + 1.
 #[path = "../vplmut.rs"]
@@ -41,6 +43,19 @@ fn err_json(e: &ParseError) -> J {
     }
 }
 
+/// CPU time (user+system, all threads) consumed by this process so far, in ms, from
+/// /proc/self/stat (clock ticks of 10 ms). The cap is enforced on CPU time so that a loaded or
+/// stalled machine cannot turn a fast parse into a "timeout"; wall time is only a backstop.
+fn cpu_ms() -> Option<u64> {
+    let st = std::fs::read_to_string("/proc/self/stat").ok()?;
+    let rest = &st[st.rfind(')')? + 1..];
+    let f: Vec<&str> = rest.split_whitespace().collect();
+    // after the ')' the fields start at index 0 = state (field 3); utime = field 14, stime = field 15
+    let ut: u64 = f.get(11)?.parse().ok()?;
+    let stt: u64 = f.get(12)?.parse().ok()?;
+    Some((ut + stt) * 10)
+}
+
 fn shard_main(file: &str, from: usize, cap_ms: u64) -> i32 {
     vplmut::install_silent_hook();
     let inputs: Vec<String> = match std::fs::read_to_string(file).ok().and_then(|t| serde_json::from_str(&t).ok()) {
@@ -53,16 +68,24 @@ fn shard_main(file: &str, from: usize, cap_ms: u64) -> i32 {
     let t0 = Instant::now();
     let cur = Arc::new(AtomicUsize::new(usize::MAX));
     let started = Arc::new(AtomicU64::new(0));
+    let started_cpu = Arc::new(AtomicU64::new(0));
+    if cpu_ms().is_none() {
+        println!("E cannot read /proc/self/stat");
+        return 4;
+    }
     {
         let cur = cur.clone();
         let started = started.clone();
+        let started_cpu = started_cpu.clone();
         std::thread::spawn(move || loop {
-            std::thread::sleep(std::time::Duration::from_millis(25));
+            std::thread::sleep(std::time::Duration::from_millis(50));
             let i = cur.load(Ordering::SeqCst);
             if i != usize::MAX {
-                let el = t0.elapsed().as_millis() as u64 - started.load(Ordering::SeqCst);
-                if el > cap_ms && cur.load(Ordering::SeqCst) == i {
-                    println!("T {} {}", i, el);
+                let wall = (t0.elapsed().as_millis() as u64).saturating_sub(started.load(Ordering::SeqCst));
+                let cpu = cpu_ms().unwrap_or(0).saturating_sub(started_cpu.load(Ordering::SeqCst));
+                // CPU cap; wall backstop at 12x for a parse that blocks without burning CPU
+                if (cpu > cap_ms || wall > 12 * cap_ms) && cur.load(Ordering::SeqCst) == i {
+                    println!("T {} {} {}", i, cpu, wall);
                     let _ = std::io::stdout().flush();
                     std::process::exit(3);
                 }
@@ -72,11 +95,13 @@ fn shard_main(file: &str, from: usize, cap_ms: u64) -> i32 {
     for (i, input) in inputs.iter().enumerate().skip(from) {
         println!("S {}", i);
         started.store(t0.elapsed().as_millis() as u64, Ordering::SeqCst);
+        started_cpu.store(cpu_ms().unwrap_or(0), Ordering::SeqCst);
         cur.store(i, Ordering::SeqCst);
         let before = vplmut::panic_count();
         let t = Instant::now();
         let r = catch(std::panic::AssertUnwindSafe(|| varpulis_parser::parse(input)));
         let us = t.elapsed().as_micros() as u64;
+        let cpu_used = cpu_ms().unwrap_or(0).saturating_sub(started_cpu.load(Ordering::SeqCst));
         cur.store(usize::MAX, Ordering::SeqCst);
         let panics = vplmut::panic_count() - before;
         let mut o = match r {
@@ -89,6 +114,7 @@ fn shard_main(file: &str, from: usize, cap_ms: u64) -> i32 {
             Err(m) => json!({"k": "panic", "message": m.chars().take(200).collect::<String>(), "site": vplmut::site_file(&vplmut::last_panic_here())}),
         };
         o["us"] = json!(us);
+        o["cpu_ms"] = json!(cpu_used);
         if panics > 0 {
             o["panics"] = json!(panics);
             o["panic_site"] = json!(vplmut::site_file(&vplmut::last_panic_anywhere()));
@@ -105,7 +131,7 @@ fn shard_main(file: &str, from: usize, cap_ms: u64) -> i32 {
 enum Outcome {
     Result(J),
     Abort { signal: Option<i32>, code: Option<i32>, stderr_tail: String },
-    Timeout { ms: u64 },
+    Timeout { cpu_ms: u64, wall_ms: u64 },
 }
 
 /// Run one shard file to completion, restarting after aborts/timeouts. Returns one outcome per
@@ -147,7 +173,7 @@ fn run_shard(exe: &Path, file: &Path, n_inputs: usize, cap_ms: u64) -> (Vec<Opti
             }
         };
         let mut pending: Option<usize> = None;
-        let mut timed_out: Option<(usize, u64)> = None;
+        let mut timed_out: Option<(usize, u64, u64)> = None;
         if let Some(so) = child.stdout.take() {
             for line in BufReader::new(so).lines() {
                 let Ok(line) = line else { break };
@@ -163,8 +189,8 @@ fn run_shard(exe: &Path, file: &Path, n_inputs: usize, cap_ms: u64) -> (Vec<Opti
                         pending = None;
                     }
                     (Some("T"), Some(i)) => {
-                        let ms = it.next().and_then(|x| x.parse::<u64>().ok()).unwrap_or(0);
-                        timed_out = Some((i, ms));
+                        let mut nums = it.next().unwrap_or("").split(' ').map(|x| x.parse::<u64>().unwrap_or(0));
+                        timed_out = Some((i, nums.next().unwrap_or(0), nums.next().unwrap_or(0)));
                     }
                     (Some("E"), _) => problems.push(format!("shard: {}", line)),
                     _ => {}
@@ -179,8 +205,8 @@ fn run_shard(exe: &Path, file: &Path, n_inputs: usize, cap_ms: u64) -> (Vec<Opti
             Ok(st) if st.success() => break,
             Ok(st) => {
                 use std::os::unix::process::ExitStatusExt;
-                if let Some((i, ms)) = timed_out {
-                    outcomes[i] = Some(Outcome::Timeout { ms });
+                if let Some((i, cpu_ms, wall_ms)) = timed_out {
+                    outcomes[i] = Some(Outcome::Timeout { cpu_ms, wall_ms });
                     from = i + 1;
                 } else if let Some(i) = pending {
                     outcomes[i] = Some(Outcome::Abort { signal: st.signal(), code: st.code(), stderr_tail });
@@ -288,6 +314,7 @@ fn main() {
     let mut rep = Report::new("C41", "exploration", &args);
     rep.rule = format!("{}; inputs <= 8 KiB. Non-trivial: an input on which parse returned an error that carries a location; distinct by input text.", vplmut::describe());
     rep.assume("line count of an input = number of '\\n' + 1 (a trailing newline opens a last empty line); a line's length is taken in bytes, the most permissive unit; Located{0,0,0} and InvalidToken{position:0} are read as 'no location claimed'");
+    rep.assume("time cap: 10 s of process CPU time per input (/proc/self/stat, 10 ms ticks), counted only when exceeded in a shard AND again alone; an input that returns within the cap when alone satisfies the bound; wall time (120 s) is a backstop that yields inconclusive, never a violation");
     rep.assume("a location that is in range but points at the wrong place is not decidable here and not claimed");
     rep.assume("panics inside the parser thread that parse() converts into Err are counted (internal_panics_absorbed), not reported: at the API boundary that is 'returns an error'");
     rep.assume("declaration-loop ranges are kept small or over the iteration limit; the region between (up to 10000 iterations x 8 KiB body, nested) is not explored to protect the shared machine");
@@ -319,7 +346,7 @@ fn main() {
         std::process::exit(rep.finish());
     }
     let nshards = ncpu();
-    let per_shard = args.pick(1400usize, 60_000usize);
+    let per_shard = args.pick(1200usize, 40_000usize);
     let mut shard_cases: Vec<Vec<Case>> = vec![];
     for s in 0..nshards {
         let mut rng = Rng::new(args.seed).fork(0xC41 + s as u64);
@@ -362,7 +389,7 @@ fn main() {
     let results: Vec<(Vec<Option<Outcome>>, Vec<String>)> = handles.into_iter().map(|h| h.join().expect("shard manager thread")).collect();
 
     // ---- judge ----
-    let mut timeouts: Vec<(usize, usize, u64)> = vec![];
+    let mut timeouts: Vec<(usize, usize, u64, u64)> = vec![];
     let mut max_us = 0u64;
     let mut slowest: Option<(u64, usize, usize)> = None;
     for (s, (outs, problems)) in results.iter().enumerate() {
@@ -375,9 +402,9 @@ fn main() {
                 None => {
                     rep.add("inputs_not_executed", 1);
                 }
-                Some(Outcome::Timeout { ms }) => {
+                Some(Outcome::Timeout { cpu_ms, wall_ms }) => {
                     rep.eval();
-                    timeouts.push((s, i, *ms));
+                    timeouts.push((s, i, *cpu_ms, *wall_ms));
                 }
                 Some(Outcome::Abort { signal, code, stderr_tail }) => {
                     rep.eval();
@@ -461,26 +488,39 @@ fn main() {
         rep.set("slowest_input", json!({"us": us, "len": shard_cases[s][i].text.len(), "mutations": shard_cases[s][i].ops, "head": head(&shard_cases[s][i].text)}));
     }
 
-    // ---- inputs over the cap: re-measure alone (machine otherwise idle now) ----
+    // ---- inputs over the cap: re-measure alone (the shards are finished now) ----
     rep.add("shard_timeouts", timeouts.len() as u64);
-    for (n, (s, i, ms)) in timeouts.iter().enumerate() {
+    let max_remeasure = args.pick(6usize, 60usize);
+    for (n, (s, i, cpu, wall)) in timeouts.iter().enumerate() {
         let case = &shard_cases[*s][*i];
-        if n >= 6 {
-            rep.inconclusive("more than 6 inputs over the time cap; the rest not re-measured");
+        if n >= max_remeasure {
+            rep.inconclusive(&format!("more than {} inputs over the time cap; the rest not re-measured", max_remeasure));
             break;
         }
         let f = tmp.path().join(format!("alone{}.json", n));
         std::fs::write(&f, serde_json::to_string(&vec![case.text.as_str()]).unwrap()).unwrap();
         let (o, _p) = run_shard(&exe, &f, 1, CAP_MS);
         match &o[0] {
-            Some(Outcome::Timeout { ms: ms2 }) => rep.violation(
+            Some(Outcome::Timeout { cpu_ms, wall_ms }) if *cpu_ms > CAP_MS => rep.violation(
                 "time/over-cap-in-isolation",
-                "parse did not return within 10 s on an input of <= 8 KiB, also when run alone",
-                json!({"input": case.text, "input_len": case.text.len(), "origin": case.origin, "mutations": case.ops, "ms_in_shard": ms, "ms_alone": ms2, "cap_ms": CAP_MS}),
+                "parse burnt more than 10 s of CPU time on an input of <= 8 KiB without returning, in a shard and again when run alone",
+                json!({"input": case.text, "input_len": case.text.len(), "origin": case.origin, "mutations": case.ops,
+                       "in_shard": {"cpu_ms": cpu, "wall_ms": wall}, "alone": {"cpu_ms": cpu_ms, "wall_ms": wall_ms}, "cap_cpu_ms": CAP_MS}),
             ),
+            Some(Outcome::Timeout { cpu_ms, wall_ms }) => rep.inconclusive(&format!(
+                "an input hit only the wall-clock backstop when run alone (cpu {} ms, wall {} ms): stalled machine or blocked parse, undecided",
+                cpu_ms, wall_ms
+            )),
             Some(Outcome::Result(j)) => {
+                // it returned within the cap when alone: the bound holds for this input
                 rep.add("shard_timeouts_not_reproduced_alone", 1);
-                rep.inconclusive(&format!("an input exceeded the cap inside a shard ({} ms) but took {} us alone", ms, j["us"]));
+                rep.add(&format!("parse_{}", if j["k"] == "ok" { "ok" } else { "err" }), 1);
+                let us = j["us"].as_u64().unwrap_or(0);
+                if us > max_us {
+                    max_us = us;
+                    rep.set("max_parse_us", json!(max_us));
+                    rep.set("slowest_input", json!({"us": us, "cpu_ms": j["cpu_ms"], "len": case.text.len(), "mutations": case.ops, "head": head(&case.text)}));
+                }
             }
             Some(Outcome::Abort { signal, stderr_tail, .. }) => rep.violation(
                 if stderr_tail.contains("overflowed its stack") { "abort/stack-overflow" } else { "abort/after-timeout" },
